@@ -14,7 +14,7 @@ from . import engine as E
 
 def verify(contract, module, qualname, variant=None, timeout_ms=10000):
     """-> list of obligation dicts (plus a {'_notapplicable': …} record if the function left the subset)."""
-    fnid = "%s.%s" % (module, qualname)
+    fnid = "%s.%s%s" % (module, qualname, getattr(contract, "tag", "") or "")
     t0 = time.time()
     out = []
     try:
@@ -79,6 +79,17 @@ def verify(contract, module, qualname, variant=None, timeout_ms=10000):
     # bounded contract checks (engines S / B of the same property) decide.  A failed contract obligation (post / safe / raises /
     # call precondition) with all proof-support obligations discharged IS a verdict and stays FAILED.
     support = [o for o in out if "id" in o and o["status"] == FAILED and _is_support(o["id"])]
+    verdicts = [o for o in out if "id" in o and o["status"] == FAILED and not _is_support(o["id"])]
+    if verdicts and not support and getattr(contract, "concrete", None) is not None:
+        # a contract obligation failed: look for an input of the REAL function that shows it (bounded native search; replayable)
+        try:
+            w = contract.concrete()
+        except Exception:
+            w = None
+        if w is not None:
+            for o in verdicts:
+                o["witness"] = w
+                o["detail"] = "%s | real run: %s" % (o["detail"], w.get("observed", ""))
     if support:
         for o in out:
             if "id" in o and o["status"] == FAILED:
